@@ -50,6 +50,8 @@ var c06Probes = [][]byte{
 	// whole input was examined), openers behind white space, a stream whose last line is a lone opener, complete
 	// documents in between (they leave `complete` / `firstToken` / the path behind)
 	[]byte("{"), []byte("["), []byte(" \n{"), []byte("{\"a\":1}\n{\n"), []byte("{}"), []byte("[1,2,3]"), []byte("1"), []byte("\"s\""), []byte("[\n"),
+	// lines that never reach a token (empty, white space only) between and in front of values
+	[]byte("\n1\n2\n"), []byte("{\"a\":1}\n \n{\"b\":2}\n"), []byte("\n\n"), []byte(" \n[1]\n{\"a\":2}\n"), []byte("\n{\"a\":1}\n"),
 }
 var c06Names = []string{"application/x-verif-a", "application/x-verif-a-alias", "text/x-verif-b2", "application/x-verif-d-alias", "a/e3", "a/f1", "application/zip", "text/plain", "application/json", "nope/nope"}
 
